@@ -103,7 +103,7 @@ void h_search(void)
   uint8_t IN[8]; size_t IN_N = nondet_size_t();
   IORA_NONDET_BYTES(IN, 8);
   __CPROVER_assume(IN_N <= 8);
-  IORA_TRUE = 1; G_stoul_base = (const char *)IN;
+  IORA_TRUE = 1; iora_exc = EXC_NONE; G_stoul_calls = 0; G_step_fell = 0; G_stoul_base = (const char *)IN;
   iora_sv data = { (const char *)IN, IN_N };
   size_t r = HttpServer_findChunkedRequestEnd(data, 0);
   __CPROVER_assert(r == IORA_NPOS || (0 < r && r <= data.n), "S1");
